@@ -87,6 +87,20 @@ Forget(k) ==
   /\ memo' = [memo EXCEPT ![k] = Absent]
   /\ cur' = [op |-> "Forget", f |-> k[1], a |-> k[2], c |-> k[3]] /\ ran' = <<>> /\ out' = <<>> /\ nops' = nops + 1
   /\ UNCHANGED <<P, stack, rq, rvals, mon, ok, last>>
+\* Memento.forget_exceptions_recursively (metadata.py:305-372), as the code does it: through the invocations RECORDED in the
+\* mementos, starting from a memoized failed call
+RECURSIVE RecordedFailures(_, _)
+RecordedFailures(frontier, acc) ==
+  IF frontier = {} THEN acc
+  ELSE LET k    == CHOOSE x \in frontier : TRUE
+           take == Has(k) /\ memo[k].out = "E" /\ k \notin acc
+           nxt  == IF take THEN {memo[k].invs[i] : i \in 1..Len(memo[k].invs)} ELSE {}
+       IN RecordedFailures((frontier \cup nxt) \ {k}, IF take THEN acc \cup {k} ELSE acc)
+ForgetExc(k) ==
+  /\ Idle /\ nops < MaxOps /\ Has(k)
+  /\ LET F == RecordedFailures({k}, {}) IN memo' = [x \in AllKeys |-> IF x \in F THEN Absent ELSE memo[x]]
+  /\ cur' = [op |-> "ForgetExc", f |-> k[1], a |-> k[2], c |-> k[3]] /\ ran' = <<>> /\ out' = <<>> /\ nops' = nops + 1
+  /\ UNCHANGED <<P, stack, rq, rvals, mon, ok, last>>
 ForgetAll(f) ==
   /\ Idle /\ nops < MaxOps /\ \E k \in AllKeys : k[1] = f /\ Has(k)
   /\ memo' = [k \in AllKeys |-> IF k[1] = f THEN Absent ELSE memo[k]]
@@ -183,7 +197,7 @@ Complete ==
   /\ UNCHANGED <<P, memo, stack, ran, rq, nops>>
 
 Next ==
-  \/ \E f \in 1..Len(P), a \in 0..AMax, c \in Ctxs : RootCall(f, a, c) \/ Forget(<<f, a, c>>)
+  \/ \E f \in 1..Len(P), a \in 0..AMax, c \in Ctxs : RootCall(f, a, c) \/ Forget(<<f, a, c>>) \/ ForgetExc(<<f, a, c>>)
   \/ \E f \in 1..Len(P), args \in BatchArgs, c \in {"none", "k1"}, rf \in BOOLEAN : RootBatch(f, args, c, rf)
   \/ \E f \in 1..Len(P) : ForgetAll(f)
   \/ RootBatchStep \/ Step \/ Complete
